@@ -52,6 +52,7 @@ type Exec struct {
 	constMaps map[string]*constMap
 	suppressFacts int
 	invSuffix string
+	onReturn  func(fr *Frame, st *State, vals []Val, k int)
 }
 
 func newExec(P *Prog, fn *ssa.Function) *Exec {
@@ -930,8 +931,8 @@ func maxElems(sliceT types.Type) int64 {
 // (entry state, havoc), that every reference stored in it has been allocated.
 // Loads under quantifiers rely on this (ground loads get the fact directly).
 func (ex *Exec) heapTyping(h *HeapInfo, t Term, alloc Term) {
-	if h.Dim < 1 || h.Dim > 2 || h.Leaf.Sort != SInt {
-		return
+	if h.Dim != 1 || h.Leaf.Sort != SInt {
+		return // rows of 2-d heaps are typed by explicit allocated() clauses where needed
 	}
 	role := h.Leaf.Role
 	ok := role == "ref" || role == "arr"
